@@ -55,7 +55,7 @@ class Program(object):
 
     # ---------------------------------------------------------- lookup
     def is_lib_unit(self, path):
-        return '/src/lib/' in path
+        return 'src/lib/' in path
 
     def lib_funcs(self):
         return [f for f in self.funcs.values() if self.is_lib_unit(f.unit)]
